@@ -285,6 +285,30 @@ def run_B(item, rec):
                                lambda m: dict(case=dict(case, kind="B4"), reported=con["score"], true_log10=math.log10(t2.total_flops()),
                                               signature=["C18B4", list(inputs), output, sorted(size.items())]), reach_probe=False)
 
+                # ---- B5: ONE optimizer object asked repeatedly about the same contraction (it keeps the best of all its
+                # batches): after every call best_flops must be the cost of what that call returned
+                def harness5(ctx, size=size, case=case):
+                    PB.GumbelBatchedGenerator = stubs.SymGumbel
+                    opt = PB.RandomGreedyOptimizer(max_repeats=1, seed=stubs.SymRng("o5", uniform_mode="grid"), accel=False, parallel=False)
+                    for k in range(3):
+                        mode = ["search", "ssa_path"][symx.choose(f"mode{k}", 2)]
+                        if mode == "search":
+                            tree = opt.search(inputs, output, size)
+                        else:
+                            tree = ContractionTree.from_path(inputs, output, size, ssa_path=opt.ssa_path(inputs, output, size), autocomplete=True)
+                        true = tree.total_flops()
+                        bad = not (tree.is_complete() and abs(opt.best_flops - math.log10(true)) < 1e-9)
+                        rec.refute(ctx, bad, "RandomGreedyOptimizer (repeated calls): best_flops == flops of what the call returned",
+                                   lambda m, k=k: dict(case=dict(case, kind="B5"), call=k, reported=opt.best_flops, true_log10=math.log10(true),
+                                                       signature=["C18B5", list(inputs), output, sorted(size.items()), k]), reach_probe=(k == 0))
+                        if bad:
+                            return
+
+                if n >= 3 and variant == 0:
+                    rec.add_explore(symx.explore(rec.guard_harness(harness5, "RandomGreedyOptimizer (repeated calls): best_flops == flops of what the call returned", lambda m, case=case: dict(
+                        case=dict(case, kind="B5"), signature=["C18B5", list(inputs), output, sorted(case["size"].items())])), max_paths=(400 if n <= 3 else 150), deadline_s=(20 if n <= 3 else 10)))
+                PB.GumbelBatchedGenerator = orig_g
+
                 if n >= 2 and variant == 0:
                     rec.add_explore(symx.explore(rec.guard_harness(harness3, "RandomGreedyOptimizer.best_flops == flops of its tree", lambda m, case=case: dict(
                         case=dict(case, kind="B3"), signature=["C18B3", list(inputs), output, sorted(case["size"].items())])), max_paths=(600 if n <= 3 else 150), deadline_s=(40 if n <= 3 else 10)))
@@ -361,6 +385,17 @@ def replay(v):
             if abs(rep - math.log10(t.total_flops())) > 1e-9:
                 return True, f"seed {seed}: reported log10 flops {rep:.6f}, returned path costs {math.log10(t.total_flops()):.6f}"
         return False, "reported == true on seeded runs"
+    if case["kind"] == "B5":
+        for seed in range(40):
+            opt = PB.RandomGreedyOptimizer(max_repeats=1, seed=seed, accel=False, parallel=False)
+            for k in range(4):
+                if k % 2:
+                    t = ContractionTree.from_path(inputs, output, size, ssa_path=opt.ssa_path(inputs, output, size), autocomplete=True)
+                else:
+                    t = opt.search(inputs, output, size)
+                if abs(opt.best_flops - math.log10(t.total_flops())) > 1e-9:
+                    return True, f"seed {seed}, call {k} on the same optimizer object: best_flops {opt.best_flops:.6f} but the returned path costs {math.log10(t.total_flops()):.6f}"
+        return False, "ok on 40 seeds x 4 calls"
     if case["kind"] == "B3":
         for seed in range(5):
             opt = PB.RandomGreedyOptimizer(max_repeats=1, seed=seed, accel=False, parallel=False)
